@@ -7,9 +7,11 @@ def dispatch (t : List String) : String :=
   match t with
   | [] => "bad-op"
   | op :: _ =>
+    let _ := op
+    -- each `opsX` returns `none` for ops it does not own; ADD-OPS-HERE
     let r : Option String :=
-      if op.startsWith "align-" then opsAlign t
-      else none
+      (opsAlign t)
+      -- <|> (opsFoo t)
     r.getD "bad-op"
 
 partial def loop (h : IO.FS.Stream) (out : IO.FS.Stream) : IO Unit := do
